@@ -106,7 +106,9 @@ def written_fields(nodes):
             f = n.func
             if isinstance(f, ast.Attribute) and f.attr in ('append', 'extend', 'pop', 'update', 'setdefault',
                                                            'remove', 'add', 'clear', 'insert'):
+                before = set(out)
                 self._t(f.value)
+                out.only_by_method |= (set(out) - before)
             self.generic_visit(n)
     v = V()
     for n in nodes:
@@ -118,6 +120,7 @@ class _FieldSet(set):
     def __init__(self):
         super().__init__()
         self.not_self = set()
+        self.only_by_method = set()     # fields seen only as receivers of mutating-looking method calls
 
 
 class Runner:
@@ -551,6 +554,7 @@ class Runner:
         if mode == 'seq':
             seq = payload
             st.ghost['_i'] = SV(T.INT, z3.IntVal(0))
+            st.ghost['_seq'] = seq           # the iterated sequence (e.g. the result of sorted(...))
         elif mode == 'range':
             lo, hi = payload
             st.ghost['_i'] = SV(T.INT, lo)
@@ -620,7 +624,7 @@ class Runner:
         return outs
 
     def leave_loop(self, st, outer=None):
-        for g in ('_i', '_done', '_k', '_entry', '_pre'):
+        for g in ('_i', '_done', '_k', '_entry', '_pre', '_seq'):
             st.ghost.pop(g, None)
             if outer and outer.get(g) is not None:
                 st.ghost[g] = outer[g]
@@ -643,6 +647,9 @@ class Runner:
         if isinstance(node, ast.Call) and isinstance(node.func, ast.Name) and node.func.id == 'list' and node.args:
             node = node.args[0]
         v = ex.ev(node, st)
+        if isinstance(v.ty, T.Opt):
+            ex.safety(st, z3.Not(v.ty.is_none(v.t)), 'iterate-None')
+            v = SV(v.ty.inner, v.ty.get(v.t))
         if isinstance(v.ty, T.Fun) and v.extra and v.extra[0] in ('mapview', 'treeview'):
             return 'map:' + v.extra[1], v.extra[2]
         if isinstance(v.ty, T.Fun) and v.extra and v.extra[0] == 'emptyview':
@@ -733,16 +740,29 @@ class Runner:
         def touch(key, via_self):
             touched[key] = touched.get(key, True) and via_self
         not_self = getattr(fields, 'not_self', set())
+        by_method = getattr(fields, 'only_by_method', set())
+
+        def is_ref_field(cls, fld):
+            try:
+                fty = T.parse_type(S.CLASSES[cls].all_fields()[fld])
+            except Exception:
+                return False
+            return isinstance(fty, T.Ref) or (isinstance(fty, T.Opt) and isinstance(fty.inner, T.Ref))
         for (cls, fld) in list(st.heap.keys()):
             if cls == '$alloc':
                 continue
             if fld in fields:
+                if fld in by_method and is_ref_field(cls, fld):
+                    continue       # obj.method(): a call on the referenced object, not a write of the field
                 touch((cls, fld), fld not in not_self)
         for fld in fields:
             # fields not read yet: resolve through the class of `self` if possible
             if self.ex.self_class:
                 try:
-                    touch((self.ex.field_decl_class(self.ex.self_class, fld), fld), fld not in not_self)
+                    dc = self.ex.field_decl_class(self.ex.self_class, fld)
+                    if fld in by_method and is_ref_field(dc, fld):
+                        continue
+                    touch((dc, fld), fld not in not_self)
                 except OutOfSubset:
                     pass
         # heap: frames of callees in the body
@@ -750,7 +770,34 @@ class Runner:
             if isinstance(n, ast.Call) and not is_ignored_call(n):
                 nm = n.func.attr if isinstance(n.func, ast.Attribute) else getattr(n.func, 'id', None)
                 recv_self = isinstance(n.func, ast.Attribute) and isinstance(n.func.value, ast.Name) and n.func.value.id == 'self'
+                container_like = nm in ('update', 'append', 'extend', 'get', 'pop', 'items', 'keys', 'values', 'copy',
+                                        'setdefault', 'remove', 'add')
+                recv_cls = None
+                if isinstance(n.func, ast.Attribute) and isinstance(n.func.value, ast.Name):
+                    rn = n.func.value.id
+                    if rn == 'self':
+                        recv_cls = self.ex.self_class
+                    else:
+                        dt = self.ex.declared(rn)
+                        if dt is None and rn in st.env:
+                            dt = st.env[rn].ty
+                        if isinstance(dt, T.Opt):
+                            dt = dt.inner
+                        if isinstance(dt, T.Ref):
+                            recv_cls = dt.cls
                 for k, c in S.CONTRACTS.items():
+                    if container_like and recv_cls is None:
+                        continue        # a method of a by-value container, not a call under contract
+                    if recv_cls is not None and '.' in c.qual and not c.qual.endswith('.__init__'):
+                        ccls = c.qual.split('.')[0]
+
+                        def related(a, b):
+                            if a == b:
+                                return True
+                            cm = S.CLASSES.get(a)
+                            return bool(cm) and any(related(x, b) for x in cm.bases)
+                        if not (related(recv_cls, ccls) or related(ccls, recv_cls)):
+                            continue
                     if c.qual.split('.')[-1] == nm or c.qual == nm or c.qual == (nm or '') + '.__init__':
                         for m in c.modifies:
                             if m.startswith('self.'):
